@@ -71,8 +71,10 @@ contract("multidecoder.decoders.xml.unescape_xml", props=["C01", "C14"],
 decoder("multidecoder.decoders.xml.find_xml_hex", ["C01", "C03", "C14"], each={**T("", "unescape.xml")})
 
 # ---- reverse (C15)
-decoder("multidecoder.decoders.reverse.find_reverse", ["C01", "C03", "C15"], each={**T("string", "reverse")})
-decoder("multidecoder.decoders.vba.find_strreverse", ["C01", "C03", "C15"], each={**T("vba.string", "vba.reverse")})
+# the value is the reversed content of the string literal (group 1 of the pattern without its two quotes): C15
+REVERSED = {"value-is-the-reversed-literal": "node.value == rev(match.group(1)[1:-1])"}
+decoder("multidecoder.decoders.reverse.find_reverse", ["C01", "C03", "C15"], each={**T("string", "reverse")}, each_local=REVERSED)
+decoder("multidecoder.decoders.vba.find_strreverse", ["C01", "C03", "C15"], each={**T("vba.string", "vba.reverse")}, each_local=REVERSED)
 decoder("multidecoder.decoders.vba.find_createobject", ["C01", "C03", "C11"], collector="out",
         each={**T("vba.function.createobject", ""), "value-is-the-text-covered": "node.value == data[node.start : node.end]"})
 
